@@ -10,7 +10,8 @@ LEAN_TB = [
 CLUSTER_TB = LEAN_TB[:2] + [
     "the abstract protocol P (lean/RaftModel/Proto.lean) is tied to /repo's current source by trace validation on every run: the cluster harness (rvh cluster: real RawNode instances, contract-abiding application with sync/async persistence, durable images, crash/restart, snapshots/compaction, adversarial seeded scheduler) decomposes every library call into P events; the native Lean driver applies applyEvent (the very function the theorems are about) to every event and compares the P state of the node with the implementation's view after every call; an event P rejects or a differing view is reported",
     "the harness's decomposition of calls into P events and its model of the application/storage (DESIGN.md 4.3 A1-A6) are trusted; so is the Rust side of the monitors",
-    "theorems named *_obligation are read off P's step function (what every step must satisfy); global theorems are for histories under one fixed joint configuration (ReachC c0); membership-changing histories are covered by trace validation and monitors only",
+    "theorems named *_obligation are read off P's step function (what every step must satisfy); the global theorems hold for every history of P (Reach), membership changes included: the voter configuration is a parameter of P's win / commitLeader / read events",
+    "the driver runs the configuration-aware layer PC (lean/RaftModel/ProtoCfg.lean) on top of P: win / commitLeader carry the node's applied index and are checked against LOCAL conditions only (the configuration is the one of the version given by the membership-change entries up to the applied index; at most one membership-change entry beyond the applied index in a winner's log / in the prefix a leader commits; the version table filled by the applyconf events is deterministic and stepwise adjacent); RaftProofs/ProtoCfg.lean (win_adj_redundant, commit_adj_redundant, winC_accepts_iff, commitC_accepts_iff) proves that on every PC-reachable state P's cross-history configuration guards (adjOk between a leader commit and a later election, or the prefix exhibited) are implied, so every PC history is a P history (reach_base) and the theorems need no assumption relating configurations; validated at run time only: those local conditions on the implementation's histories, and for reads the guard rdCfgOk of P's resp / rstate events",
     "Nat models u64/usize (no wrap-around of counters)",
 ]
 
@@ -80,20 +81,24 @@ LOCKSTEP_RULE = "; plus the lock-step scenario of C16: pre_vote and check_quorum
 
 
 PROPS = {
-    "C01": cluster(["C01"], ["*"], ["commit", "log", "dlog", "dcommit", "term", "dterm"]),  # the C01 theorems rest on every guard of P
-    "C08": cluster(["C08"], ["rissue", "rstart", "rhback", "rresp", "rstate"], []),
+    # the theorems of C01-C06, C08, C15 are about histories of P (through the layers PD / PC): they say nothing about a
+    # history that is not one, so EVERY event PD / PC / P rejects and every differing view breaks their tie ("*")
+    "C01": cluster(["C01"], ["*"], ["commit", "log", "dlog", "dcommit", "term", "dterm"], component="RN"),
+    "C08": cluster(["C08"], ["*"], [], component="RN"),
     "C10": cluster_only(["C10"], STABILISE_PROFILES, component="RN", rule_extra=STABILISE_RULE),
     "C16": cluster(["C16"], ["bump", "campaign"], [], extra_profiles=LOCKSTEP_PROFILES, component="RN", rule_extra=LOCKSTEP_RULE),
     "C17": cluster(["C17"], [], [], component="RN"),
-    "C02": cluster(["C02"], ["campaign", "grant", "win", "stepdown"], ["role", "vote"], component="RN"),
-    "C03": cluster(["C03"], ["grant", "campaign", "win", "claim"], ["vote"], component="RN"),
-    "C04": cluster(["C04"], ["commitleader", "commitapp", "commithb", "commitclaim", "commitsnap", "ackcommitted", "sendhb", "claim"], ["commit"], component="RN"),
-    "C05": cluster(["C05"], ["lappend", "sendapp", "recvapp", "installsnap", "bootstrap"], ["log"], component="RN"),
-    "C09": cluster(["C09"], ["bootstrap"], [], component="RN"),
+    "C02": cluster(["C02"], ["*"], ["role", "vote"], component="RN"),
+    "C03": cluster(["C03"], ["*"], ["vote"], component="RN"),
+    "C04": cluster(["C04"], ["*"], ["commit"], component="RN"),
+    "C05": cluster(["C05"], ["*"], ["log"], component="RN"),
+    "C09": cluster(["C09"], ["bootstrap", "applyconf", "cfginit"], [], component="RN"),
     "C13": cluster(["C13"], ["sendapp", "sendhb"], [], component="RN"),
     "C20": cluster(["C20"], [], [], component="RN"),
-    "C15": cluster(["C15"], ["sendsnap", "installsnap", "commitsnap", "bootstrap"], []),
-    "C06": cluster(["C06"], ["bump", "rdy", "persist", "release", "crash", "restart", "sendapp", "sendhb", "sendsnap"], ["term", "up", "dterm", "dvote", "dlog", "dcommit"]),
+    "C15": cluster(["C15"], ["*"], [], component="RN"),
+    # C06's node-level theorems are about the node model (self-acknowledgement only after persistence, raft.rs) and about
+    # the RawNode model (C06b: release classification): both ties run
+    "C06": cluster(["C06"], ["*"], ["term", "up", "dterm", "dvote", "dlog", "dcommit"], component=["RN", "C07"]),
     "RN": {
         "gens": {
             "quick": [
